@@ -23,7 +23,6 @@ PENDING = {
  "C07": "check under construction (claimed in DESIGN.md §4: decoder storage/stream fault enumeration); not registered until it runs end to end",
  "C10": "check under construction (claimed in DESIGN.md §5: transformer call histories with fault injection); not registered until it runs end to end",
  "C18": "check under construction (claimed in DESIGN.md §3: token-passing scheduler over the real extract goroutines); not registered until it runs end to end",
- "C19": "check under construction (claimed in DESIGN.md §7: AddLink histories with simulator-owned neighbour order); not registered until it runs end to end",
 }
 
 CHECKS = {
@@ -35,9 +34,13 @@ CHECKS = {
    text="Same seeded histories as C11 with NearestNeighbor / NearestNeighbors(k) queries interleaved after mutations; answers compared by distance (never identity) with a linear scan: k=1 minimum distance, k>1 exactly min(k,Size) stored objects, non-decreasing, distance multiset equal to the k smallest, nil tail.",
    note="Trusted: the oracle's own distance function (hypot of per-axis gaps) with 1e-12 relative tolerance for ties; runs in which a C11-side failure (panic in Insert/Delete, wrong Delete result) occurs are abandoned and counted, since C11's check reports them.",
    technique="deterministic simulation: seeded operation histories vs brute-force reference, tape-minimised replay"),
+ "C19": dict(engine="sim-hist-route", cat="exploration", ref="DESIGN.md §7",
+   text="Seeded search over AddLink/ShortestRoute histories (<=40 links on a small lattice with merged, 1-ulp-perturbed and distinct end points, random link geometries and speeds, both MinimizeOptions, queries interleaved with AddLinks) on the real route package, its rtree and gonum's A*; the simulator owns the order in which map-backed neighbour lists reach A*. Every answer is checked against a Dijkstra model: valid chain from the nearest start node to the nearest end node, reported totals equal the sums over the returned links, cost minimal within 1e-9 relative, empty route when unreachable.",
+   note="Trusted: the oracle's Dijkstra and polyline lengths. Query points keep a margin so that the nearest node is unique; equal-cost alternatives are accepted. No fault kinds exist for this component; the neighbour order is the only nondeterminism and is drawn from the tape through the add-only verif hook in Network.From/Nodes.",
+   technique="deterministic simulation: seeded AddLink/query histories with simulator-owned map order vs Dijkstra reference, tape-minimised replay"),
 }
 
-HOOK_COMMITS = ["d39f006"]
+HOOK_COMMITS = ["d39f006", "035e079"]
 
 def main():
     checks = []
